@@ -67,6 +67,10 @@ func dispatch(kind string, args []*Sexp) (out *Sexp) {
 	case "invoketwin":
 		return runInvokeTwin(args)
 	}
+	switch kind {
+	case "modgraph":
+		return runModGraph(args)
+	}
 	return L(A("unknown-kind"), A(kind))
 }
 
